@@ -6,6 +6,7 @@ import CookModel.Lemmas.GroupWhole
 import CookModel.Lemmas.GroupOutcome
 import CookModel.Props.C08
 import CookModel.Lemmas.FractionSat
+import CookModel.Lemmas.MergeSat
 /-
   C10  Grouping and listing ingredients conserves quantities.
 
@@ -1100,5 +1101,154 @@ example : (∀ q ∈ C10Witness.bigCups, q.value.AllNum Number.NotSaturated) ∧
     rcases hq with rfl | rfl <;> trivial
   · simp only [Number.NotSaturated]
     decide +kernel
+
+-- ===== w11c10merge =====
+
+namespace C10Witness
+/-- `1.25 cup` and `3 bag`, added -/
+def mergeA : GroupedQuantity Rat := addAll cB empty [num (5/4) (some cupText), num 3 (some bag)]
+/-- `1.25 cup + 1.25 cup` and `1 bag`, added and FITTED: holds the fraction `2 1/2 c` -/
+def mergeB : GroupedQuantity Rat :=
+  (GroupedQuantity.fit cB (addAll cB empty [num (5/4) (some cupText), num (5/4) (some cupText), num 1 (some bag)])).1
+/-- two definitions of flour, `1.25 cup` and a written `1 1/4 cup`, and an inline `300 g` -/
+def cupRecipe : ScaledRecipe Rat :=
+  ⟨[], [ing flour (some (num (5/4) (some cupText))) ⟨.definition [] true, none⟩ 0,
+        ing flour (some ⟨.number (.fraction 1 1 4 0), some cupText⟩) ⟨.definition [] true, none⟩ 0], [], [],
+   [num 300 (some gram)]⟩
+
+theorem mergeA_allNum : mergeA.AllNum Number.NotSaturated :=
+  fnum_addAll (fsat_approxClosed cB).regular _ _ fnum_empty (by
+    intro q hq
+    simp only [List.mem_cons, List.not_mem_nil, or_false] at hq
+    rcases hq with rfl | rfl <;> trivial)
+
+theorem mergeB_allNum : mergeB.AllNum Number.NotSaturated :=
+  msat_group_fit (fsat_approxClosed cB) (fnum_addAll (fsat_approxClosed cB).regular _ _ fnum_empty (by
+    intro q hq
+    simp only [List.mem_cons, List.not_mem_nil, or_false] at hq
+    rcases hq with rfl | rfl | rfl <;> trivial))
+
+theorem cupRecipe_allNum : cupRecipe.AllNum Number.NotSaturated := by
+  have hf : (Number.fraction 1 1 4 0 : Number Rat).NotSaturated := by
+    simp only [Number.NotSaturated]
+    decide +kernel
+  refine ⟨?_, ?_, ?_⟩
+  · intro i hi q hq
+    simp only [cupRecipe, List.mem_cons, List.not_mem_nil, or_false] at hi
+    rcases hi with rfl | rfl <;> simp only [ing, Option.some.injEq] at hq <;> subst hq
+    · trivial
+    · exact hf
+  · intro t ht
+    cases ht
+  · intro q hq
+    simp only [cupRecipe, List.mem_cons, List.not_mem_nil, or_false] at hq
+    subst hq
+    trivial
+end C10Witness
+
+/-- **`GroupedQuantity::merge` never writes a saturated fraction**: for every converter and hash order, if the
+    numbers stored in two groups (all four stores: known slots, unknown-unit map, `other`, no-unit slot; both ends
+    of ranges) are plain numbers or non-saturated fractions (`Number.NotSaturated`: `whole - 1/2 ≤ value < whole + 1`,
+    `value < u32::MAX`), then so are the numbers stored in `g.merge(other)`, everything it yields, and everything it
+    yields after `fit`.  (`merge` is `add` of everything `other` yields: an `add` stores its argument as it is or a
+    sum, and a sum is a plain number — `fnum_addAll`.) -/
+theorem C10_merge_never_saturates (c : Converter Rat) (ord : MapOrder Rat) (hord : ord.IsPerm)
+    (g other : GroupedQuantity Rat) (hg : g.AllNum Number.NotSaturated) (ho : other.AllNum Number.NotSaturated) :
+    (merge ord c g other).AllNum Number.NotSaturated ∧
+    (∀ q ∈ (merge ord c g other).iter ord, q.value.AllNum Number.NotSaturated) ∧
+    (∀ q ∈ ((merge ord c g other).fit c).1.iter ord, q.value.AllNum Number.NotSaturated) := by
+  have h := msat_merge (c := c) (fsat_approxClosed c).regular ord hord hg ho
+  have h1 := fnum_iter_of_allNum ord hord h
+  exact ⟨h, h1, (C10_fit_never_saturates c).2 ord _ h1⟩
+
+open C10Witness in
+/-- the hypotheses hold of a group of plain numbers and of a fitted group that holds the fraction `2 1/2 c`;
+    merging the second into the first gives `3.75 cup` and `4 bag` -/
+example : mergeA.AllNum Number.NotSaturated ∧ mergeB.AllNum Number.NotSaturated ∧
+    mergeB.iter idOrd = [⟨.number (.fraction 2 1 2 0), some ['c']⟩, num 1 (some bag)] ∧
+    (merge idOrd cB mergeA mergeB).iter idOrd = [num (15/4) (some cupText), num 4 (some bag)] :=
+  ⟨mergeA_allNum, mergeB_allNum, by decide +kernel, by decide +kernel⟩
+
+/-- **`GroupedQuantity::absorb` never writes a saturated fraction**: the converter-free merge used by
+    `categorize`.  Same statement as for `merge`: both groups hold only plain numbers and non-saturated fractions ⇒
+    so does `g.absorb(other)`, what it yields, and what it yields after `fit` with any converter.  (`absorb` stores
+    `join` of the stored total and the argument — a `Value::try_add` sum, a plain number — or copies the argument:
+    into its slot, or to `other`.) -/
+theorem C10_absorb_never_saturates (c : Converter Rat) (ord : MapOrder Rat) (hord : ord.IsPerm)
+    (g other : GroupedQuantity Rat) (hg : g.AllNum Number.NotSaturated) (ho : other.AllNum Number.NotSaturated) :
+    (absorb ord g other).AllNum Number.NotSaturated ∧
+    (∀ q ∈ (absorb ord g other).iter ord, q.value.AllNum Number.NotSaturated) ∧
+    (∀ q ∈ ((absorb ord g other).fit c).1.iter ord, q.value.AllNum Number.NotSaturated) := by
+  have h := msat_absorb (fsat_approxClosed c).regular ord hord hg ho
+  have h1 := fnum_iter_of_allNum ord hord h
+  exact ⟨h, h1, (C10_fit_never_saturates c).2 ord _ h1⟩
+
+open C10Witness in
+/-- the same two groups: `absorb` keeps `1.25 cup`, sums the bags and COPIES the fraction `2 1/2 c` to `other`
+    (the units `cup` and `c` differ as text, so `join` refuses): the conclusion speaks about a fraction -/
+example : (absorb idOrd mergeA mergeB).iter idOrd =
+    [num (5/4) (some cupText), num 4 (some bag), ⟨.number (.fraction 2 1 2 0), some ['c']⟩] := by
+  decide +kernel
+
+/-- **`ScaledRecipe::convert` never writes a saturated fraction**: for every converter and target system, if the
+    numbers of every quantity the conversion visits (ingredients, timers, inline quantities; both ends of ranges)
+    are plain numbers or non-saturated fractions, so are those of the converted recipe — also as the method on the
+    full recipe (`convertM`).  (`convert` makes fractions only through `Converter::approx`, `fnum_convertImpl`; what
+    it does not convert it leaves as it was.) -/
+theorem C10_convert_recipe_never_saturates (c : Converter Rat) (to : System) :
+    (∀ r : ScaledRecipe Rat, r.AllNum Number.NotSaturated → (recipeConvert c to r).1.AllNum Number.NotSaturated) ∧
+    (∀ s : Serde.FullRecipe Rat (Value Rat) (Serde.Scaled Rat), ScaledRecipe.AllNum Number.NotSaturated s.recipe →
+      ScaledRecipe.AllNum Number.NotSaturated (convertM c to s).1.recipe) :=
+  ⟨fun r hr => msat_recipeConvert (fsat_approxClosed c) to r hr,
+   fun s hs => msat_recipeConvert (fsat_approxClosed c) to s.recipe hs⟩
+
+open C10Witness in
+/-- the hypothesis holds of a recipe with a plain `1.25 cup`, a written `1 1/4 cup` and an inline `300 g`; converted
+    to imperial with the bundled converter both cups become the fraction `1 1/4 c` and the grams the rounded
+    `11 oz` (error term kept) -/
+example : cupRecipe.AllNum Number.NotSaturated ∧
+    (recipeConvert cB .imperial cupRecipe).1.ingredients.map (·.quantity) =
+      [some ⟨.number (.fraction 1 1 4 0), some ['c']⟩, some ⟨.number (.fraction 1 1 4 0), some ['c']⟩] ∧
+    (recipeConvert cB .imperial cupRecipe).1.inlineQuantities =
+      [⟨.number (.fraction 11 0 1 (-18951607/45359237)), some ['o', 'z']⟩] :=
+  ⟨cupRecipe_allNum, by decide +kernel, by decide +kernel⟩
+
+/-- **The ingredient list never holds a saturated fraction**: for every converter and hash order, if every group
+    of a list holds only plain numbers and non-saturated fractions and so do the ingredient quantities of a recipe,
+    then whenever `add_recipe` returns (no index panic) every group of the new list does; in particular
+    `IngredientList::from_recipe` of such a recipe, and of such a recipe after `convert` to any system.
+    (`group_quantities` = `add`s + `fit`: `C10_add_fit_never_saturates`; the entry of the name is `merge`d:
+    `C10_merge_never_saturates`; the other entries are not touched.) -/
+theorem C10_ingredient_list_never_saturates (c : Converter Rat) (ord : MapOrder Rat) (hord : ord.IsPerm) :
+    (∀ (list : IngredientList Rat) (r : ScaledRecipe Rat) (out : IngredientList Rat),
+      IngredientList.AllNum Number.NotSaturated list →
+      (∀ i ∈ r.ingredients, ∀ q, i.quantity = some q → q.value.AllNum Number.NotSaturated) →
+      addRecipe ord c list r = some out → IngredientList.AllNum Number.NotSaturated out) ∧
+    (∀ (r : ScaledRecipe Rat) (out : IngredientList Rat), r.AllNum Number.NotSaturated →
+      fromRecipe ord c r = some out → IngredientList.AllNum Number.NotSaturated out) ∧
+    (∀ (to : System) (r : ScaledRecipe Rat) (out : IngredientList Rat), r.AllNum Number.NotSaturated →
+      fromRecipe ord c (recipeConvert c to r).1 = some out → IngredientList.AllNum Number.NotSaturated out) := by
+  have hnil : IngredientList.AllNum Number.NotSaturated ([] : IngredientList Rat) := by
+    intro e he
+    cases he
+  refine ⟨?_, ?_, ?_⟩
+  · intro list r out hl hr h
+    exact msat_addRecipe (fsat_approxClosed c) ord hord hl r hr out h
+  · intro r out hr h
+    exact msat_addRecipe (fsat_approxClosed c) ord hord hnil r hr.1 out h
+  · intro to r out hr h
+    exact msat_addRecipe (fsat_approxClosed c) ord hord hnil _
+      (msat_recipeConvert (fsat_approxClosed c) to r hr).1 out h
+
+open C10Witness in
+/-- `from_recipe` of the cup recipe returns: each definition is grouped and fitted to the fraction `1 1/4 c`, the two
+    are merged under `flour` into the plain `2.5 c`; the same after conversion to imperial -/
+example : (groupIngredients cB cupRecipe).map (fun l => l.map (fun e => e.quantity.iter idOrd)) =
+      some [[⟨.number (.fraction 1 1 4 0), some ['c']⟩], [⟨.number (.fraction 1 1 4 0), some ['c']⟩]] ∧
+    (fromRecipe idOrd cB cupRecipe).map (fun l => l.map (fun e => (e.1, e.2.iter idOrd))) =
+      some [(flour, [num (5/2) (some ['c'])])] ∧
+    (fromRecipe idOrd cB (recipeConvert cB .imperial cupRecipe).1).map
+        (fun l => l.map (fun e => (e.1, e.2.iter idOrd))) = some [(flour, [num (5/2) (some ['c'])])] := by
+  decide +kernel
 
 end Cook
